@@ -1,6 +1,6 @@
 /-
   C18 — Sweeps, blocks and control-flow graphs partition the code.
-  Property theorems only (helper lemmas live in Amoco/Proofs/Cfg.lean).
+  Property theorems only (helper lemmas live in Amoco/Proofs/Cfg*.lean).
 -/
 import Amoco.Model.Blocks
 import Amoco.Model.Cfg
@@ -10,9 +10,11 @@ namespace Amoco.Blocks.Props
 
 open Amoco Amoco.Blocks
 
-/-- the sweep yields consecutive instructions: the first one is at the start address and each next
-    one starts where the previous one ends (in the address arithmetic `norm` of the start address),
-    for every reader, start address and number of instructions drawn. -/
+/-! ## Linear sweep -/
+
+/-- the sweep yields consecutive instructions: each next one starts where the previous one ends
+    (in the address arithmetic `norm` of the start address), for every reader, start address and
+    number of instructions drawn. -/
 theorem sequence_consecutive (read : Reader) (norm : Nat → Nat) (fuel loc : Nat) :
     ∀ pre x y post, sequence read norm fuel loc = pre ++ x :: y :: post →
       y.addr = norm (x.addr + x.length) := by
@@ -29,7 +31,6 @@ theorem sequence_consecutive (read : Reader) (norm : Nat → Nat) (fuel loc : Na
         simp only [List.nil_append, List.cons.injEq] at h
         obtain ⟨hx, hrest⟩ := h
         subst hx
-        -- y is the head of the recursive call
         cases n with
         | zero => simp [sequence] at hrest
         | succ m =>
@@ -41,5 +42,147 @@ theorem sequence_consecutive (read : Reader) (norm : Nat → Nat) (fuel loc : Na
       | cons p pre' =>
         simp only [List.cons_append, List.cons.injEq] at h
         exact ih _ pre' x y post h.2
+
+/-- the first instruction is at the start address, and every instruction is what the reader gives
+    at its own address. -/
+theorem sequence_reads (read : Reader) (norm : Nat → Nat) (fuel loc : Nat) :
+    (∀ x r, sequence read norm fuel loc = x :: r → x.addr = loc) ∧
+    (∀ x ∈ sequence read norm fuel loc, ∃ i, read x.addr = some i ∧ x = { i with addr := x.addr }) := by
+  induction fuel generalizing loc with
+  | zero => simp [sequence]
+  | succ n ih =>
+    unfold sequence
+    split
+    · simp
+    · rename_i i hi
+      constructor
+      · intro x r h
+        simp only [List.cons.injEq] at h
+        rw [← h.1]
+      · intro x hx
+        rcases List.mem_cons.mp hx with rfl | hx
+        · exact ⟨i, hi, rfl⟩
+        · exact (ih _).2 x hx
+
+/-- the sweep stops before `fuel` instructions only where the reader gives nothing. -/
+theorem sequence_stops (read : Reader) (norm : Nat → Nat) (fuel loc : Nat)
+    (h : (sequence read norm fuel loc).length < fuel) :
+    match (sequence read norm fuel loc).getLast? with
+    | none => read loc = none
+    | some x => read (norm (x.addr + x.length)) = none := by
+  induction fuel generalizing loc with
+  | zero => simp at h
+  | succ n ih =>
+    cases hr : read loc with
+    | none => simp [sequence, hr]
+    | some i =>
+      simp only [sequence, hr] at h ⊢
+      simp only [List.length_cons, Nat.add_lt_add_iff_right] at h
+      have := ih _ h
+      rw [List.getLast?_cons]
+      cases hl : (sequence read norm n (norm (loc + Instr.length { i with addr := loc }))).getLast? with
+      | none => rw [hl] at this; simpa using this
+      | some y => rw [hl] at this; simpa using this
+
+/-! ## Basic blocks -/
+
+/-- `iterblocks` cuts the instruction stream into the maximal runs that end at a block end
+    (`endsBlock`: a control-flow instruction without delay slot, or the instruction after a delayed
+    one): the blocks concatenate to the stream; every block except possibly the last one is
+    non-empty, has no block end before its last instruction and a block end at its last instruction;
+    a last unterminated block is non-empty and has no block end at all. -/
+theorem blocks_maximal_runs (s : List Instr) :
+    (iterblocks s).flatten = s ∧
+    ∃ closed trailing, iterblocks s = closed ++ trailing ∧
+      (∀ b ∈ closed, ClosedBlock b) ∧
+      (trailing = [] ∨ ∃ t, trailing = [t] ∧ t ≠ [] ∧ NoEnd t) := by
+  obtain ⟨c, t, e1, e2, e3, e4⟩ := iterblocksAux_spec s [] false (by simp [lastDelayed]) (by simpa using noEnd_nil)
+  exact ⟨by simpa [iterblocks] using e4, c, t, e1, e2, e3⟩
+
+/-- the delay-slot state at the start of every block is "not armed": the instruction before a
+    block (the last one of a closed block) is never a delayed one. -/
+theorem closed_block_last_not_delayed (b : List Instr) (h : ClosedBlock b) : lastDelayed b = false := by
+  obtain ⟨p, x, rfl, _, he⟩ := h
+  rw [lastDelayed_append_singleton]
+  simp [endsBlock] at he
+  simp [he.1]
+
+/-! ## Blocks: address range and raw bytes are the concatenation of the instructions' -/
+
+/-- a block of consecutive instructions covers `[address, address + length)`, ends where its last
+    instruction ends, and its raw bytes are the instructions' bytes in order, `length` of them. -/
+theorem block_raw_concat (a : Instr) (p : List Instr) (h : Consecutive (a :: p)) :
+    support (a :: p) = some (a.addr, a.addr + blen (a :: p)) ∧
+    (∀ q x, p = q ++ [x] → x.addr + x.length = a.addr + blen (a :: p)) ∧
+    raw (a :: p) = ((a :: p).map (·.bytes)).flatten ∧
+    (raw (a :: p)).length = blen (a :: p) := by
+  refine ⟨rfl, ?_, rfl, raw_length _⟩
+  intro q x hp
+  subst hp
+  exact consecutive_end a q x h
+
+/-- slicing: a successful `block[sta:sto]` selects the instructions between two instruction
+    boundaries `i < j`; its byte offsets are the resolved slice bounds, its raw bytes are that slice of
+    the block's raw bytes, its length the difference, and (for a consecutive block) its address range
+    starts at `address + sta`. -/
+theorem block_getitem_concat (b b' : Block) (sta sto : Option Int) (h : getitem b sta sto = some b') :
+    ∃ i j, i < j ∧ j ≤ b.length ∧ b' = (b.take j).drop i ∧
+      blen (b.take i) = sliceBound sta 0 (blen b) ∧
+      blen (b.take j) = sliceBound sto (blen b) (blen b) ∧
+      raw b' = ((raw b).take (blen (b.take j))).drop (blen (b.take i)) ∧
+      blen (b.take i) + blen b' = blen (b.take j) ∧
+      (Consecutive b → ∀ a, address? b = some a →
+        Consecutive b' ∧ support b' = some (a + blen (b.take i), a + blen (b.take j))) := by
+  obtain ⟨i, j, hij, hj, rfl, h1, h2⟩ := getitem_spec b b' sta sto h
+  have hlen : blen (b.take i) + blen ((b.take j).drop i) = blen (b.take j) := by
+    have := blen_take_add_drop (b.take j) i
+    rw [List.take_take] at this
+    rw [show min i j = i by omega] at this
+    exact this
+  refine ⟨i, j, hij, hj, rfl, h1, h2, raw_drop_take b i j (by omega), hlen, ?_⟩
+  intro hc a ha
+  refine ⟨consecutive_drop _ _ (consecutive_take _ _ hc), ?_⟩
+  have hcj := consecutive_take b j hc
+  have haj : address? (b.take j) = some a := by rw [address_take b j (by omega)]; exact ha
+  have := address_drop (b.take j) i a (by simp; omega) hcj haj
+  rw [List.take_take, show min i j = i by omega] at this
+  simp only [support, this, Option.map_some]
+  congr 2
+  omega
+
+/-- cutting: `cut` at an instruction address keeps exactly the instructions before it (the first
+    occurrence), reports how many were removed, the raw bytes are the corresponding prefix, and (for
+    a consecutive block) the kept part ends at the cut address; at any other address nothing happens. -/
+theorem block_cut_concat (b : Block) (addr : Nat) :
+    ((cut b addr).2 = 0 → (cut b addr).1 = b ∧ ∀ x ∈ b, x.addr ≠ addr) ∧
+    ((cut b addr).2 ≠ 0 →
+      ∃ x rem, b = (cut b addr).1 ++ x :: rem ∧ x.addr = addr ∧ (cut b addr).2 = rem.length + 1 ∧
+        (∀ y ∈ (cut b addr).1, y.addr ≠ addr) ∧
+        raw (cut b addr).1 = (raw b).take (blen (cut b addr).1) ∧
+        (Consecutive b → ∀ a, address? b = some a → a + blen (cut b addr).1 = addr)) := by
+  refine ⟨cut_spec_none b addr, ?_⟩
+  intro h
+  obtain ⟨x, rem, hb, hx, hn, hmin, htake⟩ := cut_spec_some b addr h
+  refine ⟨x, rem, hb, hx, hn, hmin, ?_, ?_⟩
+  · rw [htake]; exact raw_take b _
+  · intro hc a ha
+    have := consecutive_addr' (cut b addr).1 x rem a (hb ▸ hc) (hb ▸ ha)
+    omega
+
+-- non-vacuity: a concrete reader, stream and block meeting the hypotheses
+private def rd : Reader := fun a =>
+  if a = 0 then some ⟨0, [0x31, 0xc0], false, false⟩
+  else if a = 2 then some ⟨0, [0xc3], true, false⟩
+  else if a = 3 then some ⟨0, [0x90], false, false⟩ else none
+
+example : sequence rd id 10 0 = [⟨0, [0x31, 0xc0], false, false⟩, ⟨2, [0xc3], true, false⟩, ⟨3, [0x90], false, false⟩] := by
+  decide
+example : iterblocks (sequence rd id 10 0) =
+    [[⟨0, [0x31, 0xc0], false, false⟩, ⟨2, [0xc3], true, false⟩], [⟨3, [0x90], false, false⟩]] := by decide
+example : Consecutive (sequence rd id 10 0) := by
+  show Consecutive [_, _, _]
+  exact ⟨by decide, by decide, trivial⟩
+example : getitem (sequence rd id 10 0) (some 2) none = some [⟨2, [0xc3], true, false⟩, ⟨3, [0x90], false, false⟩] := by decide
+example : cut (sequence rd id 10 0) 2 = ([⟨0, [0x31, 0xc0], false, false⟩], 2) := by decide
 
 end Amoco.Blocks.Props
